@@ -2,6 +2,8 @@
 plain code."""
 from __future__ import annotations
 
+from typing import Any
+
 import numpy as np
 from hypothesis import strategies as st
 
@@ -328,6 +330,166 @@ def shared_attributes(case, ctx):
   ctx.note(labels=[tr, f'shared{len(progs)}', f'used{len(used)}',
                    f'root-{root_use}', 'named' if named else 'auto'],
            nontrivial=len(used) >= 2 and distinct)
+
+
+# ----------------------------------------------------------------------------
+# transforms used as *method* decorators
+# ----------------------------------------------------------------------------
+class MLeaf(nn.Module):
+  dim: int = 2
+
+  @nn.compact
+  def __call__(self, x):
+    w = self.param('w', nn.initializers.normal(1.0), (self.dim,))
+    c = self.variable('counters', 'n', lambda: jnp.zeros((), jnp.int32))
+    if self.is_mutable_collection('counters'):
+      c.value = c.value + 1
+    return x * w + 0.125 * c.value.astype(x.dtype)
+
+
+class MNode(nn.Module):
+  """Compact module whose body calls helper methods; the helpers create
+  auto-named sub-modules, sow and draw random numbers in the module's own
+  scope.  `mode` selects the plain helper or its nn.jit / nn.remat version."""
+  spec: Any = None
+  dim: int = 2
+  mode: str = 'plain'
+
+  def _ops(self, x, ops):
+    for op in ops:
+      k = op['op']
+      if k == 'dense':
+        x = nn.Dense(self.dim)(x)
+      elif k == 'child':
+        x = MLeaf(self.dim)(x)
+      elif k == 'sow':
+        self.sow('intermediates', op['name'], x)
+      elif k == 'rng':
+        x = x + jax.random.uniform(self.make_rng('noise'), ())
+      elif k == 'tanh':
+        x = jnp.tanh(x)
+      elif k == 'call':
+        x = getattr(self, f'h{op["h"]}_{self.mode}')(x)
+    return x
+
+  @nn.compact
+  def __call__(self, x):
+    return self._ops(x, L.thaw(self.spec)['body'])
+
+  def h0_plain(self, x):
+    return self._ops(x, L.thaw(self.spec)['helpers'][0])
+
+  def h1_plain(self, x):
+    return self._ops(x, L.thaw(self.spec)['helpers'][1])
+
+
+for _h in ('h0', 'h1'):
+  setattr(MNode, f'{_h}_jit', nn.jit(getattr(MNode, f'{_h}_plain')))
+  setattr(MNode, f'{_h}_remat', nn.remat(getattr(MNode, f'{_h}_plain')))
+
+
+# the same helpers transformed through the class form, nn.jit(Cls, methods=...)
+METHOD_CLS = {
+    'cls_jit': nn.jit(MNode, methods=['h0_plain', 'h1_plain']),
+    'cls_remat': nn.remat(MNode, methods=['h0_plain', 'h1_plain']),
+}
+
+
+def method_case():
+  hop = st.sampled_from([{'op': 'dense'}, {'op': 'dense'}, {'op': 'child'},
+                         {'op': 'sow', 'name': 's'}, {'op': 'rng'},
+                         {'op': 'tanh'}])
+  helper = st.lists(hop, min_size=1, max_size=3)
+  bop = st.one_of(hop, st.sampled_from([{'op': 'call', 'h': 0},
+                                        {'op': 'call', 'h': 0},
+                                        {'op': 'call', 'h': 1}]))
+  return st.fixed_dictionaries({
+      'helpers': st.tuples(helper, helper).map(list),
+      'body': st.lists(bop, min_size=1, max_size=5),
+      'dim': st.integers(1, 3), 'mode': st.sampled_from(['jit', 'jit',
+                                                         'remat', 'cls_jit',
+                                                         'cls_remat']),
+      'seed': st.integers(0, 2**16),
+      'filters': st.lists(st.sampled_from([
+          False, True, ['counters'], ['counters', 'intermediates'],
+          ['intermediates']]), min_size=1, max_size=2)})
+
+
+@clause('method_transforms', strategy=method_case, quick=200, thorough=8000,
+        quick_shards=8, thorough_shards=16, shrink=False,
+        rule='a compact module whose body (1-5 ops) calls one or two helper '
+        'methods, each 0-3 times; helpers create auto-named Dense / custom '
+        'sub-modules with a counter, sow and draw random numbers in the '
+        'module scope; the helpers are plain methods, decorated with '
+        'nn.jit / nn.remat, or transformed through nn.jit/nn.remat(Cls, '
+        'methods=[...]): init creates the same variable tree (same values '
+        'under remat), and applying the plain init variables with 1-2 '
+        'mutable filters gives the same output and updates as the plain '
+        'methods (random draws compared under remat; under jit only '
+        'repeatability); non-trivial = a helper that creates sub-modules is '
+        'called at least twice')
+def method_transforms(case, ctx):
+  spec = L.freeze_json({'body': case['body'], 'helpers': case['helpers']})
+  D, mode, seed = case['dim'], case['mode'], case['seed']
+  plain = MNode(spec=spec, dim=D, mode='plain')
+  if mode in METHOD_CLS:
+    trans = METHOD_CLS[mode](spec=spec, dim=D, mode='plain')
+  else:
+    trans = MNode(spec=spec, dim=D, mode=mode)
+  is_remat = mode.endswith('remat')
+  x = jnp.asarray(np.random.default_rng(seed).normal(size=(2, D)),
+                  jnp.float32)
+  keys = {'params': jax.random.key(seed), 'noise': jax.random.key(seed + 1)}
+  with sut('init plain methods'):
+    yp, vp = plain.init_with_output(keys, x)
+  with sut(f'init {mode} methods'):
+    yt, vt = trans.init_with_output(keys, x)
+  shp = lambda v: {k: tuple(np.shape(a)) for k, a in L.flat(unfreeze(v)).items()}
+  require(shp(vp) == shp(vt), lambda: f'init with @nn.{mode} helper methods '
+          f'creates {sorted(shp(vt))}, the plain methods create '
+          f'{sorted(shp(vp))}')
+  if is_remat:
+    require(tree_close(unfreeze(vp), unfreeze(vt)) and out_eq(yp, yt),
+            'init values / output under @nn.remat methods differ from the '
+            'plain methods')
+  calls = {}
+  for op in case['body']:
+    if op['op'] == 'call':
+      calls[op['h']] = calls.get(op['h'], 0) + 1
+  # nn.jit forks every rng stream of the scope at the call site, so draws
+  # made by the body after a jitted helper are "a deterministic function of
+  # the call site" too, not those of the plain code
+  draws = any(o['op'] == 'rng' for h in calls for o in case['helpers'][h]) \
+      or (bool(calls) and any(o['op'] == 'rng' for o in case['body']))
+  base = {c: v for c, v in unfreeze(vp).items() if c != 'intermediates'}
+  arng = {'noise': jax.random.key(seed + 2)}
+  for f in case['filters']:
+    with sut('apply plain methods'):
+      rp = plain.apply(base, x, mutable=f, rngs=arng)
+    with sut(f'apply {mode} methods'):
+      rt = trans.apply(base, x, mutable=f, rngs=arng)
+      rt2 = trans.apply(base, x, mutable=f, rngs=arng)
+    la = [np.asarray(a).tobytes() for a in jax.tree_util.tree_leaves(rt)]
+    lb = [np.asarray(a).tobytes() for a in jax.tree_util.tree_leaves(rt2)]
+    require(la == lb, f'two identical applies with @nn.{mode} methods differ')
+    if draws and not is_remat:
+      continue
+    if f is False:
+      require(out_eq(rp, rt), lambda: f'apply(mutable=False): @nn.{mode} '
+              'methods give a different output than the plain methods')
+    else:
+      require(out_eq(rp[0], rt[0]), lambda: f'apply(mutable={f}): @nn.{mode} '
+              'methods give a different output than the plain methods')
+      up, ut = unfreeze(rp[1]), unfreeze(rt[1])
+      require(set(up) == set(ut) and tree_close(up, ut), lambda: f'apply('
+              f'mutable={f}): updates under @nn.{mode} methods '
+              f'{sorted(shp(ut))} differ from the plain methods '
+              f'{sorted(shp(up))}')
+  creates = lambda h: any(o['op'] in ('dense', 'child')
+                          for o in case['helpers'][h])
+  ctx.note(labels=[mode, f'calls{sum(calls.values())}',
+                   'draws' if draws else 'nodraws'],
+           nontrivial=any(n >= 2 and creates(h) for h, n in calls.items()))
 
 
 # ----------------------------------------------------------------------------
